@@ -2,6 +2,7 @@ SPECIFICATION Spec
 CONSTANT Bug = "scope_before_window"
 CONSTANT MaxDefects = 2
 CONSTANT MaxValidations = 1
+CONSTANT AllowForever = FALSE
 CONSTANT MaxPending = 1
 INVARIANT Precedence
 CHECK_DEADLOCK FALSE
